@@ -523,7 +523,8 @@ def run(ctx: Ctx) -> Result:
         mods = _mods()
         for i in range(si, len(ms), nshards):
             res.states += 1
-            for k in KS:
+            # (limits in a non-monotonic order, the largest first: whatever one limit computed must not serve another)
+            for k in sorted(KS, key=lambda k: {10: 0, 0: 1, 3: 2, 1: 3, 2: 4}.get(k, 5)):
                 eval_case(res, ms[i], k, mods)
             if ctx.tier == "thorough" or i % 5 == 0:
                 # limits in a non-monotonic order: every CLI invocation must use the limit of ITS config, larger or
